@@ -147,16 +147,26 @@ class XhTape(BaseTape):
     def bool_value(self):
         return self.choice(2) == 1
 
+    float_model = 'real'        # 'real' (default, an assumption) or 'ieee' (exact binary64, much slower)
+
     def real(self, lo, hi):
         import z3
-        from crosshair.libimpl.builtinslib import RealBasedSymbolicFloat, ModelingDirector
+        from crosshair.libimpl.builtinslib import RealBasedSymbolicFloat, PreciseIeeeSymbolicFloat, ModelingDirector
         from crosshair.statespace import context_statespace
         from crosshair.tracers import NoTracing
         with NoTracing():
-            # floats are modelled as reals on this path (stated assumption); literals are promoted accordingly
-            context_statespace().extra(ModelingDirector).global_representations[float] = RealBasedSymbolicFloat
-            v = RealBasedSymbolicFloat(self._name('r'))
-            context_statespace().add(z3.And(v.var >= lo, v.var <= hi))
+            space = context_statespace()
+            if self.float_model == 'ieee':
+                space.extra(ModelingDirector).global_representations[float] = PreciseIeeeSymbolicFloat
+                v = PreciseIeeeSymbolicFloat(self._name('f'))
+                srt = v.var.sort()
+                space.add(z3.And(z3.Not(z3.fpIsNaN(v.var)), z3.Not(z3.fpIsInf(v.var)),
+                                 z3.fpGEQ(v.var, z3.FPVal(float(lo), srt)), z3.fpLEQ(v.var, z3.FPVal(float(hi), srt))))
+            else:
+                # floats are modelled as reals on this path (stated assumption); literals are promoted accordingly
+                space.extra(ModelingDirector).global_representations[float] = RealBasedSymbolicFloat
+                v = RealBasedSymbolicFloat(self._name('r'))
+                space.add(z3.And(v.var >= lo, v.var <= hi))
             self.vals.append(['real', v])
         return v
 
